@@ -492,11 +492,12 @@ var _ = strings.Join
 
 func TestC19(t *testing.T) {
 	defer rig.StopAll()
-	rec.SetRule("workloads of 1..64 concurrent clients x 1..6 requests through the full stack; every endpoint (<=3) has a fixed scripted outcome {ok, 500, 404, reset mid-body, stall mid-body, close mid-body (short of Content-Length), reset before headers, refuse}; proxy, Anthropic translated and passthrough routes (stream on/off), 3 balancers, 2 engines, optional client aborts (after the response headers, or 30 ms after sending while the backends take 120 ms to answer). Gauges are sampled during the run and at quiescence; collector (global and per endpoint), engine and translator counters are compared as deltas with the harness's own tally of client observations and backend-side attempts. Sub-check 'inflight': 1..64 simultaneous clients against never-seen endpoints that are dead (refuse / reset before any byte) or hold the request until released; once all requests are parked the gauges must be exact (hold = requests parked there, dead = 0). non-trivial = a failover-inducing backend and a mid-stream failing backend among >=8 concurrent clients; distinct by workload")
+	rec.SetRule("workloads of 1..64 concurrent clients x 1..6 requests through the full stack; every endpoint (<=3) has a fixed scripted outcome {ok, 500, 404, reset mid-body, stall mid-body, close mid-body (short of Content-Length), reset before headers, refuse}; proxy, Anthropic translated and passthrough routes (stream on/off), 3 balancers, 2 engines, optional client aborts (after the response headers, or 30 ms after sending while the backends take 120 ms to answer). Gauges are sampled during the run and at quiescence; collector (global and per endpoint), engine and translator counters are compared as deltas with the harness's own tally of client observations and backend-side attempts. Sub-check 'inflight': 1..64 simultaneous clients against never-seen endpoints that are dead (refuse / reset before any byte) or hold the request until released; once all requests are parked the gauges must be exact (hold = requests parked there, dead = 0). Sub-check 'rejected': 0..4 served requests followed by 1..6 requests Olla refuses itself (every endpoint offline, or a model nobody lists) on the translated, passthrough and proxy routes: none of the refused ones may be booked as a success by the translator or the collector, the translator total counts every request once. non-trivial = a failover-inducing backend and a mid-stream failing backend among >=8 concurrent clients; distinct by workload")
 	rec.Assume("per-model counters are not recorded anywhere in the request path (RecordModelRequest has no caller), so they are trivially conserved and not judged")
-	if ev.Replay(t, rec, "workload", runCase) || ev.Replay(t, rec, "inflight", runFlight) {
+	if ev.Replay(t, rec, "workload", runCase) || ev.Replay(t, rec, "inflight", runFlight) || ev.Replay(t, rec, "rejected", runRejected) {
 		return
 	}
 	ev.Check(t, rec, "workload", rec.Pick(30, 600), genCase, runCase)
 	ev.Check(t, rec, "inflight", rec.Pick(30, 1000), genFlight, runFlight)
+	ev.Check(t, rec, "rejected", rec.Pick(24, 1500), genRejected, runRejected)
 }
